@@ -286,12 +286,11 @@ def rand_spec(rng):
         segs = []
         cur = (float(rng.randint(-50, 50)), float(rng.randint(-50, 50)))
         for _ in range(rng.randint(1, 5)):
-            pts = oc.rand_seg_pts(rng, rng.choice([2, 3, 4]), "int")
-            pts[0] = cur
+            pts = oc.chain_seg(rng, cur, fams=("int", "int", "int", "teardrop", "retracted"))
             cur = pts[-1]
             segs.append(pts)
         return {"kind": "path", "segs": segs, "closed": False}
-    return {"kind": "segment", "pts": oc.rand_seg_pts(rng, rng.choice([2, 3, 4]), rng.choice(["int", "grid"]))}
+    return {"kind": "segment", "pts": oc.rand_seg_pts(rng, rng.choice([2, 3, 4]), rng.choice(["int", "grid", "teardrop", "retracted"]))}
 
 
 def search(ctx, budget):
@@ -317,6 +316,12 @@ def search(ctx, budget):
         ts = [0.0, 1.0] + [rng.randint(0, 64) / 64.0 for _ in range(4)] + [rng.random() for _ in range(3)]
         inp = {"spec": spec, "n": n, "ts": ts}
         msg = check(spec, n, ts)
+        if msg is None and spec["kind"] == "segment" and len(spec["pts"]) > 2 and L < 800:
+            # sampling and length-so-far describe the segment as it is now
+            m = min(n, 12)
+            msg = oc.stale_check([tuple(p) for p in spec["pts"]], i, [
+                ("regularSampleTValue(%d)" % m, lambda g: tuple(g.regularSampleTValue(m))), ("lengthAtTime(0.5)", lambda g: g.lengthAtTime(0.5)),
+                ("sample(%d)" % m, lambda g: g.sample(m)), ("length", lambda g: g.length)])
         if msg == "skip":
             skipped += 1
             continue
